@@ -225,14 +225,16 @@ variable {c : Cfg} {U : List (Bytes × Bytes)} {s : SState} {spec : Spec} {n B :
 
 /-- flushing the primary and then the index: the table keeps pointing at tagged record lists, every
     placed block is now on disk, and nothing else moves -/
-theorem flushBoth_c07 (hU : Univ c.kind U) (hI : Inv c U s spec n B) (hX : XInv c s)
+theorem flushBoth_c07_core (hU : Univ c.kind U) (hI : Inv c U s spec n B)
+    (hlt : ∀ b rl, s.m.inext.get? b = some rl → b < 2 ^ s.m.bits)
     (hn : n < 1073741824) (hB : B < two31) (order : List Nat) {m1 m2 : Mem} {d1 d2 : Disk}
     (p1 : priFlush s.m s.d = some (m1, d1))
     (i1 : idxFlush m1 d1 (fixOrder order s.m.inext.keys) = (m2, d2)) (hT : TagInv s.m s.d) :
     TagInv m2 d2 ∧
       (∀ blk, Placed s.m s.d blk → ∃ k v, RecAt s.m.kind s.m.pmax 0 d2 blk k v) ∧
       m2.kind = s.m.kind ∧ m2.pmax = s.m.pmax ∧ d2.free = s.d.free ∧ d2.freeGc = s.d.freeGc ∧
-      d2.snap = s.d.snap ∧ (∀ blk, Below s.m blk → Below m2 blk) ∧ m2.flpool = s.m.flpool := by
+      d2.snap = s.d.snap ∧ (∀ blk, Below s.m blk → Below m2 blk) ∧ m2.flpool = s.m.flpool ∧
+      d2.phdr = s.d.phdr ∧ d2.ihdr = s.d.ihdr := by
   have hU' : Univ s.m.kind U := by rw [hI.kind]; exact hU
   obtain ⟨f1, f2⟩ := fixOrder_ok order s.m.inext
   have hfn' : s.m.kind = .mh → s.m.precFileNum < two32 := fun hk => by
@@ -259,7 +261,7 @@ theorem flushBoth_c07 (hU : Univ c.kind U) (hI : Inv c U s spec n B) (hX : XInv 
     simp only [Option.getD_some] at h2 h3
     refine ⟨inext_flushOK (m := s.m) (d := s.d) hU' hI.bits31 hI.a hI.w hB b rl hb',
       enc_lt31 hU' hI.bits8 hI.bits31 h2 h3 hI.w hB, ?_⟩
-    have h1 := hX.inextLt b rl hb'
+    have h1 := hlt b rl hb'
     have h2 : 2 ^ s.m.bits ≤ 2 ^ 31 := Nat.pow_le_pow_right (by omega) hI.bits31
     unfold two32; omega
   obtain ⟨ic, fn, len, bk, files, i1', _, _, _⟩ :=
@@ -273,11 +275,23 @@ theorem flushBoth_c07 (hU : Univ c.kind U) (hI : Inv c U s spec n B) (hX : XInv 
   rw [i1'] at i1
   simp only [Prod.mk.injEq] at i1
   obtain ⟨rfl, rfl⟩ := i1
-  refine ⟨htag, ?_, rfl, rfl, rfl, rfl, rfl, fun _ hb => hb, rfl⟩
+  refine ⟨htag, ?_, rfl, rfl, rfl, rfl, rfl, fun _ hb => hb, rfl, rfl, rfl⟩
   intro blk hp
   rcases hp with ⟨r, hr, rfl⟩ | ⟨k, v, h⟩
   · exact ⟨r.key, r.val, (a1 r hr).congr rfl rfl⟩
   · exact ⟨k, v, (a2 blk k v h).congr rfl rfl⟩
+
+theorem flushBoth_c07 (hU : Univ c.kind U) (hI : Inv c U s spec n B) (hX : XInv c s)
+    (hn : n < 1073741824) (hB : B < two31) (order : List Nat) {m1 m2 : Mem} {d1 d2 : Disk}
+    (p1 : priFlush s.m s.d = some (m1, d1))
+    (i1 : idxFlush m1 d1 (fixOrder order s.m.inext.keys) = (m2, d2)) (hT : TagInv s.m s.d) :
+    TagInv m2 d2 ∧
+      (∀ blk, Placed s.m s.d blk → ∃ k v, RecAt s.m.kind s.m.pmax 0 d2 blk k v) ∧
+      m2.kind = s.m.kind ∧ m2.pmax = s.m.pmax ∧ d2.free = s.d.free ∧ d2.freeGc = s.d.freeGc ∧
+      d2.snap = s.d.snap ∧ (∀ blk, Below s.m blk → Below m2 blk) ∧ m2.flpool = s.m.flpool := by
+  obtain ⟨h1, h2, h3, h4, h5, h6, h7, h8, h9, _⟩ :=
+    flushBoth_c07_core hU hI hX.inextLt hn hB order p1 i1 hT
+  exact ⟨h1, h2, h3, h4, h5, h6, h7, h8, h9⟩
 
 /-- Store.Flush: the table keeps pointing at tagged record lists, placed blocks stay placed, the state
     reached is quiesced -/
